@@ -680,6 +680,7 @@ var profiles = map[string]profile{
 	"c14":       {wide: true, cutAny: true, maxItems: 14, mask: 1<<1 | 1<<2 | 1<<4 | 1<<5, weights: weights(kText, 20, kCsiMove, 20, kQuery, 30, kKbd, 10, kAltScr, 5, kSgr, 5, kMode, 5, kString, 5)},
 	"c17":       {wide: true, step: true, prefill: true, maxItems: 18, weights: weights(kText, 22, kMode, 28, kAltScr, 20, kCsiMove, 8, kKbd, 16, kMargins, 4, kSgr, 4, kErase, 3)},
 	"c18":       {wide: true, step: true, prefill: true, maxItems: 10, weights: weights(kText, 25, kResize, 40, kCsiMove, 15, kMargins, 10, kC0Move, 5, kAltScr, 5)},
+	"c18g":      {wide: true, step: true, prefill: true, clusters: true, maxItems: 10, weights: weights(kText, 35, kResize, 40, kCsiMove, 12, kMargins, 5, kC0Move, 4, kAltScr, 4)},
 	"c19":       {wide: false, step: true, maxItems: 60, mask: 1<<1 | 1<<2 | 1<<4 | 1<<5, weights: weights(kKbd, 80, kAltScr, 10, kText, 5, kQuery, 5)},
 	"gclusters": {wide: true, cutAny: true, clusters: true, maxItems: 14, weights: weights(kText, 45, kC0Move, 8, kCsiMove, 14, kErase, 8, kScroll, 4, kMargins, 2, kSgr, 12, kMode, 4, kAltScr, 1, kResize, 2)},
 	"c08long":   {wide: true, cutAny: true, maxItems: 14, minBytes: 4300, weights: weights(kText, 60, kC0Move, 8, kCsiMove, 8, kErase, 4, kScroll, 3, kSgr, 8, kMode, 2, kQuery, 3, kString, 4)},
